@@ -14,7 +14,7 @@ from common import Check, pmap, run
 REQUIRED = ["param:prim:u8", "param:prim:f64", "param:prim:DiplomatChar", "param:enum", "param:struct", "param:&opaque", "param:&mut opaque",
             "param:Option<&opaque", "param:&slice", "param:&mut slice", "param:Box<[T]>", "param:&str:utf8", "param:&str:ustr", "param:&str:u16",
             "param:Box<str>:utf8", "param:Option<prim>", "param:DiplomatOption<prim>", "param:Option<struct>", "param:Option<enum>", "param:Option<slice>",
-            "param:callback", "param:write", "ret:unit", "ret:enum", "ret:struct", "ret:outstruct", "ret:Box<opaque>", "ret:Option<Box<opaque>", "ret:&opaque",
+            "param:callback", "param:callback:static", "param:write", "ret:unit", "ret:enum", "ret:struct", "ret:outstruct", "ret:Box<opaque>", "ret:Option<Box<opaque>", "ret:&opaque",
             "ret:Option<prim>", "ret:result", "ret:ok:unit", "ret:err:unit", "ret:ordering", "ret:&str:utf8:static", "ret:&slice", "arm:ok", "arm:err",
             "arm:some", "arm:none", "destroy", "self:struct:val", "self:enum:val", "self:opaque:mut", "field:DiplomatOption<prim>", "field:struct",
             "field:Option<&opaque", "field:&slice"]
@@ -77,7 +77,8 @@ def main(tier, seed):
     stats = {"repo_driver_runs": 0, "strs_probe_programs": 0, "rejected_utf8_calls": 0, "events_observed": 0}
 
     def one(i):
-        return api.run_cpp_program(seed, i, "c02", ncalls=40)
+        # every third program also has holder opaques keeping a std::function beyond the call that received it
+        return api.run_cpp_program(seed, i, "c02", ncalls=40, profile=(dict(held_callbacks=True) if i % 3 == 1 else None))
     results = pmap(one, range(nprog))
     # feature quotas are met by construction: while a required production has not been exercised, run further programs (new indices)
     for round_ in range(4):
